@@ -218,6 +218,18 @@ def job_c14(job):
     from simdag.gen.kinds import build_kind_program
     rng = random.Random(job["perm_seed"]) if job.get("perm_seed") is not None else None
     names, phases, freg = build_kind_program(job["values"], job["source"])
+    if job.get("same_ids"):
+        # hand-written ids that are unique within a phase only (s0, s1, ... in every phase)
+        renamed = []
+        for p in phases:
+            m = {st.id: "s%d" % k for k, st in enumerate(p)}
+            renamed.append([st.copy(id=m[st.id], depends_on=frozenset(m[d] for d in st.depends_on)) for st in p])
+        phases = renamed
+    if job.get("empty_phase") is not None:
+        # a phase without statements (its position is part of the presentation)
+        j = job["empty_phase"] % (len(names) + 1)
+        names = names[:j] + ["empty"] + names[j:]
+        phases = phases[:j] + [[]] + phases[j:]
     if rng is not None:
         idx = list(range(len(names)))
         rng.shuffle(idx)
@@ -231,7 +243,14 @@ def job_c14(job):
     buf = io.StringIO()
     try:
         with contextlib.redirect_stdout(buf):
-            tbl = SymbolKindFinder(freg)(names, phases)
+            if job.get("via_infer_kinds") and not job.get("as_iter"):
+                # the public entry point, on a description whose phases are presented in this order
+                from dagrt.data import infer_kinds
+                from dagrt.language import DAGCode, ExecutionPhase
+                dag = DAGCode({n: ExecutionPhase(n, n, list(p)) for n, p in zip(names, phases)}, names[0])
+                tbl = infer_kinds(dag, freg)
+            else:
+                tbl = SymbolKindFinder(freg)(names, phases)
     except Exception as e:
         return {"outcome": "exc:" + type(e).__name__}
     g = sorted((n, kind_repr(k)) for n, k in tbl.global_table.items())
